@@ -123,6 +123,14 @@ def run(ctx):
             uniq.append(r)
     rows = uniq
     rows += vc.hrows(["-mode", "reader", "-seed", seed, "-n", "2500" if thorough else "150"])
+    sweeps = [r for r in rows if r["kind"] == "intsweep"]
+    rows = [r for r in rows if r["kind"] != "intsweep"]
+    for r in sweeps[:1]:
+        ctx.cov["integer_sweep"] = {k: v for k, v in r.items() if k != "examples"}
+        if r["bad"] > 0:
+            ctx.violation({"kind": "property-violated-by-implementation", "class": "integer-sweep",
+                           "explain": "a well-formed int64 literal (dense sweep -1100..1100, +-2^k, +-(2^k+-1), every spelling ParseInt accepts) through both builders, ParseObject, triple.Parse and ReadIntoGraph: a value or an error, never (nil, nil), never a panic, and the value written",
+                           "failing_input": {"bad": r["bad"], "calls": r["calls"], "examples": r["examples"]}})
     second = [r for r in rows if r["kind"] == "secondpass"]
     rows = [r for r in rows if r["kind"] != "secondpass"]
     for r in second:
